@@ -201,13 +201,18 @@ class StairsArray(ExtensionArray):
 
     @Appender(docstrings.make_docstring("array", "sample"), join="\n", indents=1)
     def sample(self, x) -> pd.Series:
-        array = pd.Series(self.data)
-        return array.apply(Stairs.sample, x=x, include_index=True)
+        return self._evaluation_table(Stairs.sample, x)
+
+    def _evaluation_table(self, func, x, **kwargs):
+        # one row per member, one column per query point; assembled positionally so that
+        # repeated query points are allowed, as they are for a single step function
+        columns = x if is_list_like(x) else [x]
+        rows = [np.atleast_1d(func(s, x, **kwargs)) for s in self.data]
+        return pd.DataFrame(rows, columns=pd.Index(columns))
 
     @Appender(docstrings.make_docstring("array", "limit"), join="\n", indents=1)
     def limit(self, x, side="right"):
-        array = pd.Series(self.data)
-        return array.apply(Stairs.limit, x=x, side=side, include_index=True)
+        return self._evaluation_table(Stairs.limit, x, side=side)
 
     @Appender(docstrings.make_docstring("array", "logical_or"), join="\n", indents=1)
     def logical_or(self):
